@@ -33,6 +33,8 @@ func (l *Loaded) VerifyD(pkgShort string, keys []string, opts vc.VerifyOpts, run
 	if p == nil {
 		return nil, fmt.Errorf("package %s not loaded", pkgShort)
 	}
+	// Layer-O client hooks do not apply to repository code
+	vc.FieldIDHook, vc.ArrayLenHook, vc.ConvHook, vc.FuncLitHook = nil, nil, nil, nil
 	var all []ObResult
 	var qs []*smt.Query
 	var obls []*vc.Obligation
@@ -62,7 +64,27 @@ func (l *Loaded) VerifyD(pkgShort string, keys []string, opts vc.VerifyOpts, run
 				Status: r.Status, Backend: r.Backend, Millis: r.Millis, File: r.File, Model: r.Model, Output: r.Output, Layer: "D"})
 		}
 	}
-	return all, nil
+	return MergeProbes(all), nil
+}
+
+// MergeProbes: a vacuity probe is posed on every path that reaches the probed
+// point; the point is reachable if the assumptions of at least one of those
+// paths are not refuted (paths on which, say, a slice is empty legitimately
+// never reach a loop head with i > 0).
+func MergeProbes(rs []ObResult) []ObResult {
+	alive := map[string]bool{}
+	for _, r := range rs {
+		if r.Kind == "vacuity" && r.Status == "unsat" {
+			alive[r.Name] = true
+		}
+	}
+	for i := range rs {
+		if rs[i].Kind == "vacuity" && rs[i].Status == "vacuous" && alive[rs[i].Name] {
+			rs[i].Status = "unsat"
+			rs[i].Backend += "(probe:unreachable-on-this-path-only)"
+		}
+	}
+	return rs
 }
 
 func shortPos(s string) string {
